@@ -24,8 +24,8 @@ OPS = {
 
 
 def pure(tree, mode="real", timeout=60):
-    pa, prea, codea = data_params(tree, 1, mode=mode, prefix="a")
-    pb, preb, codeb = data_params(tree, 1, mode=mode, prefix="b")
+    pa, prea, codea = data_params(tree, 1, mode=mode, prefix="a", nums=3)
+    pb, preb, codeb = data_params(tree, 1, mode=mode, prefix="b", nums=3)
     body = codea + codeb + """
 a, b = fresh(MK, 2)
 a.fill(adata[0]); b.fill(bdata[0])
@@ -36,6 +36,7 @@ r3 = 0.5 * a
 r4 = a.zero()
 r5 = a.copy()
 r6 = a.toJson()
+r6b = a.toJsonString() if not SYMBOLIC else a.toJson()
 r7 = (a == b)
 r8 = (a != b)
 if not jeq(J(a), ja): return "left-operand-changed"
